@@ -406,14 +406,8 @@ def r6(cx):
             is_desc = (src[0] == "call" and src[1].endswith("Task::children")) or src[0] == "local"
             if not is_desc:
                 continue
-            pre = set(T.STATES)
-            for g in guards_of(m, f, c.b, mode="alias"):
-                r = g.root
-                if r[0] == "call" and T.STATE_PRED.match(r[1]) and g.truth is not None:
-                    sr = pa.root(f, Call(f, r[2]).args[0])
-                    if sr[0] == "call" and sr[1] == T.Q_STATE and pa.root(f, Call(f, sr[2]).args[0]) == recv:
-                        pre &= {s for s in T.STATES if tables[T.STATE_PRED.match(r[1]).group(1)][s] == g.truth}
-            closed |= pre
+            from rules.c02 import gw_prestate
+            closed |= gw_prestate(m, tables, pa, c, recv)
         # the descent itself must not depend on the state of the visited task: open tasks hang below
         # finished ones (the next act of a sequence has the finished act as its predecessor)
         for dname, dcalls in (("children", [c for c in f.calls() if c.q.endswith("Task::children")]),):
@@ -431,7 +425,9 @@ def r6(cx):
                 cx.ob("C03.R6", "%s:descent-unconditional" % name, not bad,
                       "`%s` descends into the children of every task it visits, whatever that task's state (descent guarded by %s)" % (name, bad or "nothing"), c.loc,
                       **({} if not bad else {"consequence": "a still open task below a finished one (second act of a sequence, step behind an empty step) is never reached and stays open"}))
-        open_states = set(T.STATES) - T.TERMINAL - {"None"}
+        # None counts: a task that sched_task created and queued is not terminal, and unless it is closed here it is
+        # initialised and run after the process has ended (exec only refuses closed tasks)
+        open_states = set(T.STATES) - T.TERMINAL
         missing = sorted(open_states - closed)
         cx.ob("C03.R6", "%s:classes" % name, not missing,
               "`%s` closes descendants in every open state class (not closed: %s)" % (name, missing or "none"), f.loc())
